@@ -28,6 +28,7 @@ var harnessTargets = map[string]string{
 	"security": "internal/security",
 	"web":      "internal/web",
 	"main":     "internal/verifmain",
+	"app":      ".", // the root package (app.go: the wiring of a hub instance)
 }
 
 func main() {
